@@ -336,7 +336,7 @@ def _large_task(task, out):
         if only and only != c:
             continue
         gid, pos, ng, gsz = wq.group_ids(shape, axis, gs)
-        x = base[gid % len(C), pos % 16].to(dt)
+        x = (base[gid % len(C), pos % 16] * (1.0 + ((gid * 37) % 101).to(torch.float64) / 128.0)).to(dt)  # aperiodic across groups
         fields = {"kind": "large", "qtype": qname, "dtype": dtname, "axis": axis, "grouped": gs is not None}
         case = dict(task, only=c)
         out["evals"] += 1
